@@ -197,6 +197,8 @@ func resetCaches() {
 	reachEffCache = map[string]map[*ssaFunc]bool{}
 	sentinelCache = map[*ssa.Global]int{}
 	perCallCache = map[string]bool{}
+	globalRowsCache = map[*ssa.Global][]structAlt{}
+	globalRowsDone = map[*ssa.Global]bool{}
 	soleStoreCache = map[string]*ssa.Store{}
 	soleStoreDone = map[string]bool{}
 }
